@@ -33,6 +33,7 @@ const (
 	envNames = "DL_NAMES" // "edge": the calls use the edge-case handler names instead of dl-<i>
 	envNest  = "DL_NEST"  // n >= 2: handler i, after Done(), itself calls Launch of handler i+1 (while i+1 < n)
 	envDepth = "DL_DEPTH" // how many nested Launch calls lie above this process (set by the harness before a nested Launch)
+	envPre   = "DL_PRE"   // "unset-both,,clearenv": what handler i does to itself right before Done() (see preDoneAction)
 	envSteps = "DL_STEPS" // "1,1,3": the caller issues its Launch calls in steps of that many concurrent calls; empty = all at once
 
 	maxN          = 12
@@ -90,9 +91,19 @@ var edgeNames = [maxN]string{
 	"ENV_DAEMON_NAME", // the variable's own name
 }
 
+// separators and other characters a protocol might give a meaning to
+var sepNames = [maxN]string{
+	"a,b", ",", "a;b", "a:b", "a|b", "a b,c d", "l1\nl2", "t\tt", "back\\slash", "100%s %d", "-leading", "--",
+}
+
+var nameTables = []string{"", "edge", "sep"}
+
 func nameOf(table string, i int) string {
-	if table == "edge" {
+	switch table {
+	case "edge":
 		return edgeNames[i]
+	case "sep":
+		return sepNames[i]
 	}
 	return fmt.Sprintf("dl-%d", i)
 }
@@ -101,8 +112,9 @@ func nameOf(table string, i int) string {
 func registerHandlers() {
 	for i := 0; i < maxN; i++ {
 		i := i
-		daemon.Register(nameOf("", i), func() { daemonMain(i) })
-		daemon.Register(nameOf("edge", i), func() { daemonMain(i) })
+		for _, t := range nameTables {
+			daemon.Register(nameOf(t, i), func() { daemonMain(i) })
+		}
 	}
 }
 
@@ -116,6 +128,7 @@ type Marker struct {
 	LauncherStart uint64 `json:"launcher_start"` // its starttime
 	Pgrp          int    `json:"pgrp"`
 	Sid           int    `json:"sid"`
+	Pre           string `json:"pre,omitempty"`  // what the handler does to itself before Done()
 	Fds           string `json:"fds,omitempty"`  // what the daemon's fds 0/1/2 point to (its own readlink)
 	Kind          string `json:"kind,omitempty"` // "" / "h" healthy, else a handler that fails before Done()
 }
@@ -137,6 +150,7 @@ type DoneRec struct {
 	Seq       string `json:"seq"`
 	Called    bool   `json:"called"`            // Done() was called
 	Err       string `json:"err,omitempty"`     // its error
+	PreErr    string `json:"pre_err,omitempty"` // error of the pre-Done action
 	Skipped   string `json:"skipped,omitempty"` // why Done() was not called
 	PpidAfter int    `json:"ppid_after_done"`   // the daemon's own view
 	// forced schedules: parent 20 ms after Done() was called (sampled by a goroutine of its own,
@@ -172,12 +186,24 @@ func daemonMain(idx int) {
 	seq := os.Getenv(envSeq)
 	delays := parseDelays(os.Getenv(envDelays))
 	sup, _ := strconv.Atoi(os.Getenv(envSup))
+	// everything the handler needs from its environment is read now: it may clean the
+	// environment before Done()
+	kinds := parseKinds(os.Getenv(envKinds))
+	forced := os.Getenv(envForced) == "1"
+	nest, _ := strconv.Atoi(os.Getenv(envNest))
+	depth, _ := strconv.Atoi(os.Getenv(envDepth))
+	names := os.Getenv(envNames)
+	stdio := os.Getenv(envStdio) == "1"
+	pre := ""
+	if p := strings.Split(os.Getenv(envPre), ","); idx < len(p) {
+		pre = p[idx]
+	}
 	pid, lpid := os.Getpid(), os.Getppid()
 	go lifeguard(dir, sup, pid, t0)
 	self, lst := readStat(pid), readStat(lpid)
 	writeAtomic(dir, fmt.Sprintf("marker.%d", pid), Marker{Pid: pid, Idx: idx, Seq: seq, Start: self.Start,
-		Launcher: lpid, LauncherStart: lst.Start, Pgrp: self.Pgrp, Sid: self.Sid, Fds: stdFds(pid), Kind: kindOf(parseKinds(os.Getenv(envKinds)), idx)})
-	switch kindOf(parseKinds(os.Getenv(envKinds)), idx) {
+		Launcher: lpid, LauncherStart: lst.Start, Pgrp: self.Pgrp, Sid: self.Sid, Fds: stdFds(pid), Kind: kindOf(kinds, idx), Pre: pre})
+	switch kindOf(kinds, idx) {
 	case kindExit3:
 		os.Exit(3)
 	case kindExit0:
@@ -197,7 +223,7 @@ func daemonMain(idx int) {
 		time.Sleep(time.Duration(delays[idx]) * time.Millisecond)
 	}
 	rec := DoneRec{Pid: pid, Idx: idx, Seq: seq}
-	forced := os.Getenv(envForced) == "1"
+	rec.PreErr = preDoneAction(pre)
 	calling := os.Getppid() == lpid
 	writeAtomic(dir, fmt.Sprintf("predone.%d", pid), PreDone{Pid: pid, Idx: idx, Seq: seq, Calling: calling})
 	if !calling {
@@ -233,18 +259,53 @@ func daemonMain(idx int) {
 	}
 	// nested launch: this daemon is itself a program that starts a daemon. Its environment still
 	// carries the ENV_DAEMON_* variables of its own launch.
-	nest, _ := strconv.Atoi(os.Getenv(envNest))
-	depth, _ := strconv.Atoi(os.Getenv(envDepth))
 	if rec.Called && idx+1 < nest && idx+1 < maxN && depth == idx {
 		os.Setenv(envDepth, strconv.Itoa(depth+1))
-		kinds := parseKinds(os.Getenv(envKinds))
-		r := CallReport{Idx: idx + 1, Kind: kindOf(kinds, idx+1), Name: nameOf(os.Getenv(envNames), idx+1), CalledBy: pid}
+		r := CallReport{Idx: idx + 1, Kind: kindOf(kinds, idx+1), Name: nameOf(names, idx+1), CalledBy: pid}
 		launchAndObserve(dir, &r, nil)
 	}
-	if os.Getenv(envStdio) == "1" {
+	if stdio {
 		useStdio(dir, pid, lpid)
 	}
 	select {} // the lifeguard ends the process
+}
+
+// preActions: ordinary things a daemon does to itself before it calls Done().
+var preActions = []string{"unset-name", "unset-flag", "unset-both", "clearenv", "overwrite", "chdir", "closefds", "setsid", "umask"}
+
+func preDoneAction(a string) string {
+	var err error
+	switch a {
+	case "":
+	case "unset-name": // so that its own children do not inherit the role
+		err = os.Unsetenv("ENV_DAEMON_NAME")
+	case "unset-flag":
+		err = os.Unsetenv("ENV_DAEMON_FLAG")
+	case "unset-both":
+		os.Unsetenv("ENV_DAEMON_NAME")
+		err = os.Unsetenv("ENV_DAEMON_FLAG")
+	case "clearenv":
+		os.Clearenv()
+	case "overwrite":
+		os.Setenv("ENV_DAEMON_NAME", "something-else")
+		err = os.Setenv("ENV_DAEMON_FLAG", "isLauncher")
+	case "chdir":
+		err = os.Chdir("/")
+	case "closefds":
+		os.Stdin.Close()
+		os.Stdout.Close()
+		err = os.Stderr.Close()
+	case "setsid":
+		_, err = syscall.Setsid()
+	case "umask":
+		syscall.Umask(0o027)
+	default:
+		return "unknown action " + a
+	}
+	if err != nil {
+		return err.Error()
+	}
+	return ""
 }
 
 // StdioRec is written after the daemon used its standard descriptors: it survived that.
